@@ -27,6 +27,12 @@ void deleteStep(NifFile& nif, const std::string& shapeName, const std::vector<ui
 	ContentIds ids;
 	std::string s = projectShape(nif, shape, ids);
 	bool all = nif.DeleteVertsForShape(shape, idx);
+	// (the per-triangle partition labels are a cache that the deletion drops: reading the partitions brings it back)
+	if (!all && checkParts) {
+		NiVector<BSDismemberSkinInstance::PartitionInfo> pinfo;
+		std::vector<int> tp;
+		nif.GetShapePartitions(shape, pinfo, tp);
+	}
 	std::string t = projectShape(nif, shape, ids);
 	JObj ev;
 	ev.add("e", "delverts").raw("case", caseJson).raw("I", u16json(idx)).add("allDeleted", all).add("checkParts", checkParts);
